@@ -6,7 +6,7 @@ use vcore::drive::{prop_par, Verdict};
 use vcore::rt::{self, digest_str, Acc, Args, Report};
 use vcore::sgr::{self, MColor, MStyle, ANSI_COLORS, EFFECTS, EFFECT_NAMES};
 
-const RULE: &str = "Exhaustive: all 4096 x 4096 ordered pairs of effect sets against a u16 bit-set model (insert, remove, set, contains, |, -, |=, -=, clear, is_plain, iteration order/contents, Debug text, equality/ordering consistency); all 16 palette colours and all 256 indices for the colour laws. Random: styles x setter/operator sequences against a record model. Non-trivial pair = both operands non-empty and different (every pair is distinct by construction).";
+const RULE: &str = "Exhaustive: all 4096 x 4096 ordered pairs of effect sets against a u16 bit-set model (insert, remove, set, contains, |, -, |=, -=, clear, is_plain, iteration order/contents through every Iterator consumption method, Debug text under a grid of width/fill/precision/# specs (on Effects and through Style), equality/ordering consistency); all 16 palette colours and all 256 indices for the colour laws. Random: styles x setter/operator sequences against a record model. Non-trivial pair = both operands non-empty and different (every pair is distinct by construction).";
 
 fn e(bits: u16) -> Effects {
     sgr::to_effects(bits)
@@ -93,6 +93,33 @@ fn check_unary(a: u16) -> Result<(), String> {
     let dbg = format!("{:?}", ea);
     if dbg != want_dbg {
         return Err(format!("Debug is {dbg:?}, expected {want_dbg:?}"));
+    }
+    // ... under every formatting spec: whatever width, fill, precision or `#` does to the layout,
+    // the upper-case words in the output must be the member names, each once, nothing cut short
+    {
+        let st = Style::new().effects(ea);
+        let specs: [(&str, String, String); 9] = [
+            ("{:#?}", format!("{:#?}", ea), format!("{:#?}", st)),
+            ("{:40?}", format!("{:40?}", ea), format!("{:40?}", st)),
+            ("{:.0?}", format!("{:.0?}", ea), format!("{:.0?}", st)),
+            ("{:.1?}", format!("{:.1?}", ea), format!("{:.1?}", st)),
+            ("{:.3?}", format!("{:.3?}", ea), format!("{:.3?}", st)),
+            ("{:.8?}", format!("{:.8?}", ea), format!("{:.8?}", st)),
+            ("{:*^9.2?}", format!("{:*^9.2?}", ea), format!("{:*^9.2?}", st)),
+            ("{:>#200.5?}", format!("{:>#200.5?}", ea), format!("{:>#200.5?}", st)),
+            ("{:<1?}", format!("{:<1?}", ea), format!("{:<1?}", st)),
+        ];
+        for (spec, e_out, s_out) in &specs {
+            for (what, out) in [("Effects", e_out), ("Style", s_out)] {
+                let mut words: Vec<&str> = out.split(|c: char| !(c.is_ascii_uppercase() || c == '_')).filter(|w| w.len() >= 2).collect();
+                words.sort();
+                let mut want_words = names.clone();
+                want_words.sort();
+                if words != want_words {
+                    return Err(format!("Debug of {what} {a:#014b} with {spec} is {out:?}: it names {:?}, the members are {:?}", words, want_words));
+                }
+            }
+        }
     }
     // Style <-> Effects
     let st = Style::new().effects(ea);
